@@ -165,7 +165,11 @@ class G:
         return ts
 
     # ---------------------------------------------------------- rendering
-    def render(self, lalr=False, ascent=False, header_types=("i64", "u64")):
+    def render(self, lalr=False, ascent=False, header_types=("i64", "u64"), probes=0):
+        """probes: seed (>0) to sprinkle `@L`/`@R` look-around probes between the symbols of the
+        alternatives; their values are reported through probe(label, position, kind, value)."""
+        import random as _r
+        pr = _r.Random(probes) if probes else None
         L = []
         L.append("use crate::rt::*;")
         if lalr:
@@ -175,28 +179,34 @@ class G:
         L.append("grammar;")
         L.append("extern {\n    type Location = %s;\n    type Error = %s;\n    enum Tok {" % header_types)
         for i, t in enumerate(self.terms):
-            L.append('        "%s" => Tok(\'%s\', _),' % (t, chr(ord("a") + i)))
+            L.append('        "%s" => Tok(\'%s\', _, _, _),' % (t, chr(ord("a") + i)))
         L.append("    }\n}")
-        pid = 0
         for nt, alts in self.rules.items():
             vis = "pub " if nt in self.pubs else ""
             L.append("%s%s: Tree = {" % (vis, nt))
             for i, a in enumerate(alts):
-                syms = []
-                for j, s in enumerate(a):
+                syms, plist = [], []
+                label = '"%s#%d"' % (nt, i)
+                for j, s in enumerate(a + [None]):
+                    if pr is not None and pr.random() < 0.35:
+                        k = pr.choice("LR")
+                        syms.append("<p%s%d:@%s>" % (k, j, k))
+                        plist.append("probe(%s, %d, '%s', p%s%d)" % (label, j, k, k, j))
+                    if s is None:
+                        break
                     if s == "!":
-                        syms.append("<c%d:!>" % j)
+                        syms.append("<el%d:@L> <c%d:!> <er%d:@R>" % (j, j, j))
                     elif s in self.terms:
                         syms.append('<c%d:"%s">' % (j, s))
                     else:
                         syms.append("<c%d:%s>" % (j, s))
-                kids = ", ".join("Tree::from(c%d)" % j for j in range(len(a)))
-                label = '"%s#%d"' % (nt, i)
+                kids = ", ".join(("err_node(el%d, er%d, c%d)" % (j, j, j)) if a[j] == "!" else ("Tree::from(c%d)" % j) for j in range(len(a)))
+                pre = "{ %s; " % "; ".join(plist) if plist else ""
+                post = " }" if plist else ""
                 if "fallible" in self.flags[(nt, i)]:
-                    L.append("    <l:@L> %s <r:@R> =>? fallible(%s, l, r, vec![%s])," % (" ".join(syms), label, kids))
+                    L.append("    <l:@L> %s <r:@R> =>? %sfallible(%s, l, r, vec![%s])%s," % (" ".join(syms), pre, label, kids, post))
                 else:
-                    L.append("    <l:@L> %s <r:@R> => node(%s, l, r, vec![%s])," % (" ".join(syms), label, kids))
-                pid += 1
+                    L.append("    <l:@L> %s <r:@R> => %snode(%s, l, r, vec![%s])%s," % (" ".join(syms), pre, label, kids, post))
             L.append("};")
         return "\n".join(L) + "\n"
 
@@ -218,6 +228,13 @@ def corpus():
         "S": [["a", "X", "d"], ["a", "Y", "c"], ["b", "X", "c"], ["b", "Y", "d"]],
         "X": [["e", "X"], ["e"]],
         "Y": [["e", "Y"], ["e"]]}))
+    # LR(1) but not LALR(1) where the split states are connected through goto (nonterminal) edges
+    C.append(G("nonlalr_goto", ["a", "b", "c", "d", "e", "q"], {
+        "S": [["a", "X", "d"], ["a", "Y", "c"], ["b", "X", "c"], ["b", "Y", "d"]],
+        "X": [["e", "Q"]], "Y": [["e", "Q"]], "Q": [["q"]]}))
+    C.append(G("nonlalr_goto2", ["a", "b", "c", "d", "e", "q", "r"], {
+        "S": [["a", "X", "d"], ["a", "Y", "c"], ["b", "X", "c"], ["b", "Y", "d"]],
+        "X": [["e", "Q", "R"]], "Y": [["e", "Q", "R"]], "Q": [["q"], ["Q", "q"]], "R": [[], ["r"]]}))
     # merged lookaheads: reductions before the error is detected (expected tokens precision)
     C.append(G("merged", ["a", "b", "c", "d", "e", "f", "x"], {
         "S": [["a", "X", "d"], ["b", "X", "c"], ["a", "Y", "c"], ["b", "Y", "d"]],
@@ -273,6 +290,90 @@ def corpus():
         "A": [([], ["fallible"]), (["a", "A"], ["fallible"])],
         "B": [([], ["fallible"]), ["b"]]}))
     return C
+
+
+def nonlalr_family(r, idx):
+    """LR(1)-but-not-LALR(1) grammars: two contexts (a/b) x two nonterminals with the same body, the body
+    reaching its end through a random chain of nonterminals (so that lane-table state splitting has to
+    follow goto edges as well as shift edges)."""
+    terms = ["a", "b", "c", "d", "e", "q", "r"]
+    depth = r.randint(0, 3)
+    rules = {"S": [["a", "X", "d"], ["a", "Y", "c"], ["b", "X", "c"], ["b", "Y", "d"]]}
+    body = ["e"] if r.random() < 0.7 else []
+    chain = ["Q%d" % i for i in range(depth)]
+    if chain:
+        body = body + [chain[0]]
+    elif not body:
+        body = ["e"]
+    if r.random() < 0.4:
+        body = body + ["r"]
+    rules["X"] = [list(body)]
+    rules["Y"] = [list(body)]
+    for i, q in enumerate(chain):
+        nxt = chain[i + 1] if i + 1 < len(chain) else None
+        alts = []
+        if nxt:
+            alts.append([nxt] if r.random() < 0.5 else ["q", nxt])
+        else:
+            alts.append(["q"])
+        if r.random() < 0.3:
+            alts.append([q, "q"] if nxt is None else ["r", nxt])
+        rules[q] = alts
+    return G("nonlalr_f%d" % idx, terms, rules)
+
+
+def nonlalr_matrix(r, idx):
+    """Contexts x pairs of look-alike nonterminals: LR(1) grammars that need state splitting at several
+    nesting levels.  Pair members have bodies with a common prefix; which follow terminal goes with which
+    member depends on the context, so LALR merging conflicts while canonical LR(1) does not."""
+    ctxs = ["a", "b", "c"][:r.choice([2, 3, 3])]
+    follows = ["d", "m", "n", "p"]
+    terms = ctxs + follows + ["e", "q", "r"]
+    rules = {"S": []}
+    pairs = []
+    # level-0 pairs: identical bodies
+    n0 = r.choice([1, 2])
+    bodies0 = [["e"], ["q"], ["r"], ["e", "e"]]
+    r.shuffle(bodies0)
+    for i in range(n0):
+        a, b = "X%d" % i, "Y%d" % i
+        rules[a] = [list(bodies0[i])]
+        rules[b] = [list(bodies0[i])]
+        pairs.append((a, b))
+    # level-1 pairs: a prefix followed by the members of a lower pair
+    if r.random() < 0.8:
+        lo = r.choice(pairs)
+        pre = r.choice(["q", "e", "r"])
+        rules["C0"] = [[pre, lo[0]]]
+        rules["D0"] = [[pre, lo[1]]]
+        pairs.append(("C0", "D0"))
+        if r.random() < 0.6:
+            # an unrelated pair starting with the same prefix: shares states with C0/D0
+            rules["V0"] = [[pre]]
+            rules["W0"] = [[pre]]
+            pairs.append(("V0", "W0"))
+    used = False
+    for ci, c in enumerate(ctxs):
+        for pi, (a, b) in enumerate(pairs):
+            if r.random() < 0.45 and used:
+                continue
+            f = r.sample(follows, 2)
+            if (ci + pi) % 2:
+                f.reverse()
+            if ci > 0 and r.random() < 0.7:
+                # reuse the follow pair of context 0, swapped: this is what defeats LALR merging
+                prev = [alt for alt in rules["S"] if alt[0] == ctxs[0] and alt[1] in (a, b)]
+                if len(prev) == 2:
+                    f = [prev[1][2], prev[0][2]] if ci % 2 else [prev[0][2], prev[1][2]]
+            rules["S"].append([c, a, f[0]])
+            rules["S"].append([c, b, f[1]])
+            used = True
+    seen, out = set(), []
+    for alt in rules["S"]:
+        if tuple(alt) not in seen:
+            seen.add(tuple(alt)); out.append(alt)
+    rules["S"] = out
+    return G("nlmx%d" % idx, terms, rules)
 
 
 def random_grammar(r, idx, recovery=False, fallible=False):
